@@ -99,7 +99,7 @@ class DatePairs(Sub):
         return False, "start-date-row"
 
 
-tod = st.one_of(st.just(0), st.integers(0, 86400 * US - 1),
+tod = st.one_of(st.just(0), S.uni(0, 86400 * US - 1),
                 st.builds(lambda h, m, s, u: ((h * 60 + m) * 60 + s) * US + u, st.sampled_from([0, 1, 12, 23]), st.sampled_from([0, 1, 59]),
                           st.sampled_from([0, 1, 59]), st.sampled_from([0, 1, 999999])))
 
@@ -112,9 +112,9 @@ def wall_pair(draw):
     w1 = T.naive_us(D.datetime(y, m, d)) + draw(tod)
     k = draw(st.integers(0, 4))
     if k == 0:
-        span = draw(st.integers(0, 3 * 86400 * US))
+        span = draw(S.uni(0, 3 * 86400 * US))
     elif k == 1:
-        span = draw(st.integers(0, 800)) * 86400 * US + draw(st.integers(-86400 * US, 86400 * US))
+        span = draw(st.integers(0, 800)) * 86400 * US + draw(S.uni(-86400 * US, 86400 * US))
     elif k == 2:
         span = draw(st.integers(0, 9000 * 366)) * 86400 * US + draw(tod)
     elif k == 3:
@@ -221,9 +221,9 @@ def cross_case(draw):
     u1 = draw(st.one_of(S.instant_near_transition(z1), S.uniform_instant()))
     k = draw(st.integers(0, 2))
     if k == 0:
-        u2 = u1 + draw(st.integers(0, 3 * 86400 * US))
+        u2 = u1 + draw(S.uni(0, 3 * 86400 * US))
     elif k == 1:
-        u2 = u1 + draw(st.integers(0, 800 * 86400 * US))
+        u2 = u1 + draw(S.uni(0, 800 * 86400 * US))
     else:
         u2 = draw(S.uniform_instant())
     u1, u2 = sorted((u1, S.clamp_u(u2)))
